@@ -438,6 +438,60 @@ func entropyCase(r *mon.Run, c Case) {
 	entropy.Check(r, "C11", r.Rng(c.Stream), func(sig, what string) { r.Violate(sig, what, c) })
 }
 
+// mixedLists: the expanded multiscalar routine with different static and dynamic lists on both sides of the algorithm
+// switch, through the exported API only (points are [k]G made with Mul and checked against the reference encoding), so
+// that it also runs when the in-package observers do not fit the tree under test.
+func (x *ctx) mixedLists(rng *rand.Rand) {
+	r := x.r
+	cat := gen.ScalarCatalogue()
+	var pk []*big.Int
+	var pp []*curve.RistrettoPoint
+	for i := 0; i < 12; i++ {
+		kv := new(big.Int).Mod(gen.RandScalar(rng, cat), ref.L)
+		ks, _ := scalar.NewFromCanonicalBytes(ref.LE32(kv))
+		pt := curve.NewRistrettoPoint().Mul(curve.RISTRETTO_BASEPOINT_POINT, ks)
+		if !bytes.Equal(renc(pt), ref.RistrettoEncode(ref.B.Mul(kv))) {
+			r.Violate("ristretto/Mul", fmt.Sprintf("[k]G for k=%x", kv), x.c)
+			return
+		}
+		pk, pp = append(pk, kv), append(pp, pt)
+	}
+	for _, split := range [][2]int{{3, 5}, {90, 101}, {100, 100}, {1, 199}, {120, 80}, {260, 20}, {300, 250}} {
+		var ss, ds []*scalar.Scalar
+		var sp []*curve.ExpandedRistrettoPoint
+		var dp []*curve.RistrettoPoint
+		total := new(big.Int)
+		for i := 0; i < split[0]+split[1]; i++ {
+			kv, pt := pk[i%12], pp[i%12]
+			sv := new(big.Int).Mod(gen.RandScalar(rng, cat), ref.L)
+			sl, _ := scalar.NewFromCanonicalBytes(ref.LE32(sv))
+			total.Add(total, new(big.Int).Mul(kv, sv))
+			if i < split[0] {
+				ss, sp = append(ss, sl), append(sp, curve.NewExpandedRistrettoPoint(pt))
+			} else {
+				ds, dp = append(ds, sl), append(dp, pt)
+			}
+		}
+		wantM := ref.RistrettoEncode(ref.B.Mul(total.Mod(total, ref.L)))
+		var got, got2 *curve.RistrettoPoint
+		pan, msg := mon.Try(func() {
+			got = x.h.R().ExpandedMultiscalarMulVartime(ss, sp, ds, dp)
+			got2 = x.h.R().MultiscalarMulVartime(append(append([]*scalar.Scalar{}, ss...), ds...), append(append([]*curve.RistrettoPoint{}, pp[:0]...), func() []*curve.RistrettoPoint {
+				var all []*curve.RistrettoPoint
+				for i := 0; i < split[0]+split[1]; i++ {
+					all = append(all, pp[i%12])
+				}
+				return all
+			}()...))
+		})
+		r.EvalN(2)
+		r.Hist(fmt.Sprintf("ExpandedMultiscalarMulVartime/static=%d/dynamic=%d", split[0], split[1]))
+		if pan || !bytes.Equal(renc(got), wantM) || !bytes.Equal(renc(got2), wantM) {
+			r.Violate("ristretto/ExpandedMultiscalarMulVartime/mixed-lists", fmt.Sprintf("static=%d dynamic=%d: panic=%v %s expanded %x plain %x want %x", split[0], split[1], pan, msg, renc(got), renc(got2), wantM), x.c)
+		}
+	}
+}
+
 func runCase(r *mon.Run, c Case) {
 	if c.Kind == "entropy" {
 		entropyCase(r, c)
@@ -447,6 +501,8 @@ func runCase(r *mon.Run, c Case) {
 	defer func() { r.HistN("receivers-with-a-past", x.h.Uses) }()
 	rng := r.Rng(c.Stream)
 	switch c.Kind {
+	case "mixed-lists":
+		x.mixedLists(rng)
 	case "string":
 		x.decodeString(mon.UnHex(c.In))
 	case "srange":
@@ -512,6 +568,9 @@ func main() {
 		cases = append(cases, Case{Kind: "srange", Lo: lo, Hi: lo + 32})
 	}
 	cases = append(cases, Case{Kind: "lengths", Stream: "c11/lengths"})
+	for i := 0; i < r.Pick(2, 12); i++ {
+		cases = append(cases, Case{Kind: "mixed-lists", Stream: fmt.Sprintf("c11/mixed-lists/%d", i)})
+	}
 	for i := 0; i < r.Pick(8, 300); i++ {
 		cases = append(cases, Case{Kind: "classes", Stream: fmt.Sprintf("c11/classes/%d", i)})
 	}
